@@ -67,8 +67,8 @@ func DecodeStyp(hdr BoxHeader, startPos uint64, r io.Reader) (Box, error) {
 	if err != nil {
 		return nil, err
 	}
-	b := StypBox{data: data}
-	return &b, nil
+	sr := bits.NewFixedSliceReader(data)
+	return DecodeStypSR(hdr, startPos, sr)
 }
 
 // DecodeStypSR - box-specific decode
